@@ -591,6 +591,37 @@ theorem ir_of_rev {ir : Nat → Bool} {j : Job} (h : JobOkV ir .rev j) (hep : j.
   rw [h2]
   simpa using h1.2 hep
 
+/-- the request's invariant after its `append` of log `l` (the machine's reservations unchanged; its misses unchanged
+unless the log may carry a key) -/
+theorem pinv_append (v : VId) (ir : Nat → Bool) (sh : Shared) (s s' : Guard.S) (j : Job) (rg : Regs) (ph ph' : GPh) (l : LogE)
+    (hP : PInv v ir sh s j rg ph)
+    (hph : (if ph.may = true then
+        (match ph.hold with
+          | .on .missed b => some { ph with hold := .on .spent b, dirty := true }
+          | _ => none)
+        else some { ph with dirty := true }) = some ph')
+    (hh : s'.held = s.held) (hm : ph.may = false → s'.missed = s.missed) :
+    PInv v ir { sh with queue := sh.queue ++ [(j.a, l)] } s' j rg ph' := by
+  split at hph
+  · rename_i hmay
+    split at hph
+    · rename_i b hhold
+      simp only [Option.some.injEq] at hph; subst hph
+      refine ⟨hP.job, ?_, ?_, ?_, ?_, ?_, (fun h => by cases h), hP.r1, hP.r2⟩
+      · intro k; rw [hh, hP.held k, hhold]; simp
+      · intro k; rw [hP.sys k, hhold]; simp [sysOf]
+      · intro b' hb; cases hb
+      · intro b' hb; cases hb
+      · intro hv _; exact hP.seen hv (by rw [hhold]; rfl)
+    · cases hph
+  · rename_i hmay
+    simp only [Option.some.injEq] at hph; subst hph
+    have hmay' : ph.may = false := by simpa using hmay
+    refine ⟨hP.job, ?_, hP.sys, ?_, ?_, hP.seen, (fun h => by cases h), hP.r1, hP.r2⟩
+    · intro k; rw [hh]; exact hP.held k
+    · intro b hb; rw [hm hmay']; exact hP.miss b hb
+    · intro b hb; rw [hm hmay']; exact hP.look b hb
+
 /-- **one item of one request**: the machine accepts what it emits and the request's part of the invariant moves with
 its automaton state.  `g1`/`g2`: the referencer's table is the machine's, as far as the OTHER requests are concerned
 (none of them is in a release window). -/
@@ -894,6 +925,163 @@ theorem item_step (v : VId) (ir : Nat → Bool) (sh : Shared) (s : Guard.S) (j :
       · intro _ hs; simp [seenOf] at hs
       · cases v <;> exact hS
     all_goals cases hph
-  | _ => sorry
+  | look =>
+    rw [htok] at hph; simp only [gstep] at hph
+    obtain ⟨rfl, hep, key, via, rfl⟩ := tok_look htok
+    have e1 : effSh sh j rg (.act (.readTx key) .ok via) = sh := by simp [effSh]
+    have e2 : effRg sh j rg (.act (.readTx key) .ok via) =
+        { rg with reverted := some (sh.store.any (fun l => l.reverts = some j.req.target)) } := by simp [effRg]
+    split at hph
+    · rename_i sys hhold
+      split at hph
+      · cases hph
+      · rename_i hdirty
+        simp only [Option.some.injEq] at hph; subst hph
+        have hne : ph.hold ≠ .idle := by rw [hhold]; simp
+        have hk : (j.key VId.rev.K, j.a) ∈ s.held := (hP.held _).2 ⟨hne, rfl⟩
+        have hcl := pend_clean .rev s sh j.a hpend (hP.clean (by simpa using hdirty))
+        have hp0 : s.pending.any (fun e => e.by_ = j.a ∧ e.key = j.key VId.rev.K) = false :=
+          List.any_eq_false.mpr (fun e he => by simp [hcl e he])
+        have hseen : sh.store.any (fun l => l.txid = some j.req.target) = true := by simpa [enabled] using hen
+        have hd : s.durable.any (·.key = j.key VId.rev.K) = sh.store.any (fun l => l.reverts = some j.req.target) := by
+          rw [dur_any .rev s sh hdur]
+          simp only [VId.keyOf, Job.key, VId.K, revKey_eq_toString]
+        rw [e1, e2]
+        cases hr : sh.store.any (fun l => l.reverts = some j.req.target) with
+        | true =>
+          have hq : runOn (gm .rev ir) s (evsOf sh j rg (.act (.readTx key) .ok via)) = .ok s := by
+            simp only [evsOf]
+            apply runOn_single
+            simp only [Guard.stepOf, view_txRead, ir_of_rev hP.job hep, and_self, if_true, hr]
+            exact step_read_hit s j.a _ hk (hd.trans hr) hp0
+          refine ⟨s, hq, hpend, ⟨hP.job, ?_, ?_, ?_, ?_, fun _ _ => hseen, hP.clean, hP.r1, hP.r2⟩, hS⟩
+          · intro k; rw [hP.held k, hhold]; simp
+          · intro k; rw [hP.sys k, hhold]; simp [sysOf]
+          · intro b hb; cases hb
+          · intro b _
+            exact ⟨rfl, hep, fun h => by cases h⟩
+        | false =>
+          have hq : runOn (gm .rev ir) s (evsOf sh j rg (.act (.readTx key) .ok via)) =
+              .ok { s with missed := (j.a, j.key VId.rev.K) :: s.missed } := by
+            simp only [evsOf]
+            apply runOn_single
+            simp only [Guard.stepOf, view_txRead, ir_of_rev hP.job hep, and_self, if_true, hr]
+            exact step_read_miss s j.a _ hk (hd.trans hr) hp0
+          refine ⟨_, hq, hpend, ⟨hP.job, ?_, ?_, ?_, ?_, fun _ _ => hseen, hP.clean, hP.r1, hP.r2⟩, hS⟩
+          · intro k; rw [hP.held k, hhold]; simp
+          · intro k; rw [hP.sys k, hhold]; simp [sysOf]
+          · intro b hb; cases hb
+          · intro b _
+            exact ⟨rfl, hep, fun _ => List.mem_cons_self⟩
+    all_goals cases hph
+  | fin =>
+    rw [htok] at hph; simp only [gstep] at hph
+    obtain ⟨ok, cls, rfl⟩ := tok_fin htok
+    have e1 : effSh sh j rg (.fin ok cls) = sh := by simp [effSh]
+    have e2 : effRg sh j rg (.fin ok cls) = rg := by simp [effRg]
+    split at hph
+    · cases hph
+    · rename_i hdirty
+      have hx : sysOf ph.hold = false ∧ ph' = { ph with hold := .idle } := by
+        split at hph
+        · rename_i hh
+          simp only [Option.some.injEq] at hph
+          refine ⟨by rw [hh]; rfl, ?_⟩
+          rw [← hph, ← hh]
+        · rename_i hh
+          simp only [Option.some.injEq] at hph
+          exact ⟨by rw [hh]; rfl, hph.symm⟩
+        · cases hph
+      obtain ⟨hsys, rfl⟩ := hx
+      have hcl := pend_clean v s sh j.a hpend (hP.clean (by simpa using hdirty))
+      have hp0 : s.pending.any (fun e => e.by_ = j.a ∧ e.key ≠ "") = false :=
+        List.any_eq_false.mpr (fun e he => by simp [hcl e he])
+      have hq : runOn (gm v ir) s (evsOf sh j rg (.fin ok cls)) =
+          .ok { s with held := s.held.filter (·.2 ≠ j.a), missed := s.missed.filter (·.1 ≠ j.a) } := by
+        simp only [evsOf]
+        apply runOn_single
+        simp only [Guard.stepOf, view_finish]
+        exact step_finish s j.a hp0
+      rw [e1, e2]
+      refine ⟨_, hq, hpend, ⟨hP.job, ?_, ?_, ?_, ?_, ?_, hP.clean, hP.r1, hP.r2⟩, hS⟩
+      · intro k; simp [List.mem_filter]
+      · intro k; rw [hP.sys k, hsys]; simp [sysOf]
+      · intro b hb; cases hb
+      · intro b hb; cases hb
+      · intro _ hs; simp [seenOf] at hs
+  | append =>
+    rw [htok] at hph; simp only [gstep] at hph
+    obtain ⟨og, cs, o, via, rfl⟩ := tok_append htok
+    obtain ⟨l, hldef⟩ : ∃ l : LogE, l = (if og = "chained" then rg.chained.getD default else default) := ⟨_, rfl⟩
+    have e1 : effSh sh j rg (.act (.append og cs) o via) = { sh with queue := sh.queue ++ [(j.a, l)] } := by
+      simp [effSh, hldef]
+    have e2 : effRg sh j rg (.act (.append og cs) o via) = rg := by simp [effRg]
+    have hev : evsOf sh j rg (.act (.append og cs) o via) = [.committed j.a l sh.lastTx] := by simp [evsOf, hldef]
+    have hl : (v.keyOf l = "" ∨ v.keyOf l = j.key v.K) ∧ (l.reverts = none ∨ l.reverts = some j.req.target) ∧
+        (ph.may = false → v.keyOf l = "") := by
+      have hdft : (v.keyOf default = "" ∨ v.keyOf default = j.key v.K) ∧
+          ((default : LogE).reverts = none ∨ (default : LogE).reverts = some j.req.target) ∧
+          (ph.may = false → v.keyOf default = "") := ⟨.inl (keyOf_default v), .inl rfl, fun _ => keyOf_default v⟩
+      rw [hldef]
+      split
+      · cases hc : rg.chained with
+        | none => simpa using hdft
+        | some l0 => simpa using hP.r2 l0 hc
+      · exact hdft
+    rw [e1, e2, hev]
+    by_cases hk : v.keyOf l = ""
+    · have hq : runOn (gm v ir) s [.committed j.a l sh.lastTx] = .ok { s with pending := s.pending ++ [⟨"", l.id, j.a⟩] } := by
+        apply runOn_single
+        simp only [Guard.stepOf, view_committed, hk]
+        exact step_commit_plain s j.a l.id
+      refine ⟨_, hq, ?_, pinv_append v ir sh s _ j rg ph ph' l hP hph rfl (fun _ => rfl), ?_⟩
+      · simp [hpend, entryOf, hk]
+      · cases v
+        · trivial
+        · trivial
+        · intro l' hl' t ht
+          simp only [List.map_append, List.map_cons, List.map_nil, List.mem_append, List.mem_singleton] at hl'
+          rcases hl' with h | h | rfl
+          · exact hS l' (.inl h) t ht
+          · exact hS l' (.inr h) t ht
+          · have := (revKey_eq_empty _).1 hk
+            rw [ht] at this
+            cases this
+    · have hkey : v.keyOf l = j.key v.K := hl.1.resolve_left hk
+      have hmay : ph.may = true := by
+        cases h : ph.may with
+        | false => exact absurd (hl.2.2 h) hk
+        | true => rfl
+      have hx : ∃ b, ph.hold = .on .missed b := by
+        rw [hmay] at hph
+        simp only [if_true] at hph
+        split at hph
+        · exact ⟨_, by assumption⟩
+        · cases hph
+      obtain ⟨b, hhold⟩ := hx
+      have hne : ph.hold ≠ .idle := by rw [hhold]; simp
+      have hheld : (v.keyOf l, j.a) ∈ s.held := by rw [hkey]; exact (hP.held _).2 ⟨hne, rfl⟩
+      have hmiss : (j.a, v.keyOf l) ∈ s.missed := by rw [hkey]; exact hP.miss b hhold
+      have hq : runOn (gm v ir) s [.committed j.a l sh.lastTx] =
+          .ok { s with pending := s.pending ++ [⟨v.keyOf l, l.id, j.a⟩], missed := s.missed.filter (· ≠ (j.a, v.keyOf l)) } := by
+        apply runOn_single
+        simp only [Guard.stepOf, view_committed]
+        exact step_commit_keyed s j.a l.id _ hk hheld hmiss
+      refine ⟨_, hq, ?_, pinv_append v ir sh s _ j rg ph ph' l hP hph rfl (fun h => by rw [hmay] at h; cases h), ?_⟩
+      · simp [hpend, entryOf]
+      · cases v
+        · trivial
+        · trivial
+        · intro l' hl' t ht
+          simp only [List.map_append, List.map_cons, List.map_nil, List.mem_append, List.mem_singleton] at hl'
+          rcases hl' with h | h | rfl
+          · exact hS l' (.inl h) t ht
+          · exact hS l' (.inr h) t ht
+          · have htt : t = j.req.target := by
+              rcases hl.2.1 with h | h
+              · rw [h] at ht; cases ht
+              · rw [h] at ht; exact (Option.some.inj ht).symm
+            rw [htt]
+            exact hP.seen rfl (by rw [hhold]; rfl)
 
 end Engine.Skel.GuardRef
